@@ -192,6 +192,9 @@ def fn_let_from_non_function(prog):
     for s, _ in prog_stmts(prog):
         if s[0] == "let" and isinstance(s[2], tuple) and s[2][0] == "fn" and s[3][0] not in ("fnref", "var", "call", "callv"):
             return True
+        # the same hole in the other direction: a function used as the value of a let of a non-function type
+        if s[0] == "let" and not (isinstance(s[2], tuple) and s[2][0] == "fn") and isinstance(s[3], tuple) and s[3] and s[3][0] == "fnref":
+            return True
     return False
 
 
@@ -381,7 +384,7 @@ def cast_of_string(prog):
     names = _name_types(prog)
     funcs = {f["name"]: f["ret"] for f in prog["funcs"]}
     return any(e and e[0] == "bi" and e[1] in ("cast_bool", "cast_int", "cast_float") and e[2] and
-               _static_kind(e[2][0], names, funcs) == "string" for e in prog_exprs(prog))
+               _static_kind(e[2][0], names, funcs) in ("string", "array", "other") for e in prog_exprs(prog))
 
 
 ALL["cast_of_string"] = cast_of_string
